@@ -521,16 +521,16 @@ func cmdFilterDiff(args []string) error {
 
 // minimised inputs of earlier findings: they always run first
 var filterCorpus = []string{
-	`attributes:""`,                       // F3: printed as "attributes:" before the fix
-	`attributes."" = "v"`,                 // F3
-	`hasPrefix(attributes."", "")`,        // F3
-	`attributes.k != "v"`,                 // F2: absent key
-	`"attributes":x`,                      // F14
-	`attributes:x "AND" attributes:y`,     // F14
-	`"NOT" attributes:x`,                  // F14
-	`attributes.x "=" "v"`,                // F14
-	`"hasPrefix"(attributes.x,"v")`,       // F14
-	`attributes":"x`,                      // F14
+	`attributes:""`,                   // F3: printed as "attributes:" before the fix
+	`attributes."" = "v"`,             // F3
+	`hasPrefix(attributes."", "")`,    // F3
+	`attributes.k != "v"`,             // F2: absent key
+	`"attributes":x`,                  // F14
+	`attributes:x "AND" attributes:y`, // F14
+	`"NOT" attributes:x`,              // F14
+	`attributes.x "=" "v"`,            // F14
+	`"hasPrefix"(attributes.x,"v")`,   // F14
+	`attributes":"x`,                  // F14
 	`attributes:x AND attributes:y OR attributes:z`,
 	`NOT NOT attributes:x`,
 	``,
